@@ -4,4 +4,6 @@ cd /verif
 for d in "$@"; do
   [ -f $d/result.json ] && continue
   flock /tmp/.verif-seedqueue.lock python3 tools/seedtest.py $d $SEED_CHECKS > $d/result.log 2>&1
+  # every patched worktree leaves its own test binaries in the Go build cache: drop entries not used for two hours
+  find /root/.cache/go-build -type f -mmin +120 -delete 2>/dev/null
 done
